@@ -5199,7 +5199,7 @@ let bc_segment code pc stop head =
 type facts = { f_c : amap1; f_d : z list; f_t : amap1; f_nz : expr list }
 
 type cert =
-| CLoop of z * z * facts
+| CLoop of z * z * facts * facts
 | CIf of facts
 
 (** val st_of_facts : facts -> sst1 **)
@@ -5364,7 +5364,7 @@ let next_head fuse rest cs =
                   | [] -> None
                   | c :: _ ->
                     (match c with
-                     | CLoop (h, _, _) -> Some h
+                     | CLoop (h, _, _, _) -> Some h
                      | CIf _ -> None))
        else None
      | _ -> None)
@@ -5424,7 +5424,7 @@ let rec tv_block fuel w fuse code insts pc stop st cs =
                       | [] -> None
                       | c :: cs1 ->
                         (match c with
-                         | CLoop (head, back, inv) ->
+                         | CLoop (head, back, inv, exitf) ->
                            let fi = st_of_facts inv in
                            let entry_ok =
                              if once
@@ -5453,10 +5453,12 @@ let rec tv_block fuel w fuse code insts pc stop st cs =
                            if (&&)
                                 ((&&)
                                   ((&&)
-                                    ((&&) ((&&) entry_ok back_ok)
-                                      (Z.leb (Z.add back (Zpos XH)) stop))
-                                    (Z.leb head back)) (Z.leb Z0 pc1))
-                                (entails w st1 inv)
+                                    ((&&)
+                                      ((&&) ((&&) entry_ok back_ok)
+                                        (Z.leb (Z.add back (Zpos XH)) stop))
+                                      (Z.leb head back)) (Z.leb Z0 pc1))
+                                  (entails w st1 inv))
+                                ((||) once (entails w st1 exitf))
                            then let ent =
                                   add_nz fi
                                     (e_var
@@ -5473,14 +5475,18 @@ let rec tv_block fuel w fuse code insts pc stop st cs =
                                     | Some p1 ->
                                       let (pc3, stb') = p1 in
                                       if (&&)
-                                           ((&&) (Z.eqb pc3 back)
-                                             (agree w stb' cond))
-                                           (entails w stb' inv)
+                                           ((&&)
+                                             ((&&) (Z.eqb pc3 back)
+                                               (agree w stb' cond))
+                                             (entails w stb' inv))
+                                           ((||) once
+                                             (entails w
+                                               (once_exit w stb' cond) exitf))
                                       then tv_block fuel' w fuse code rest'
                                              (Z.add back (Zpos XH)) stop
                                              (if once
                                               then once_exit w stb' cond
-                                              else fi) cs2
+                                              else st_of_facts exitf) cs2
                                       else None
                                     | None -> None)
                                  | None -> None)
@@ -5496,7 +5502,7 @@ let rec tv_block fuel w fuse code insts pc stop st cs =
                     | [] -> None
                     | c0 :: cs1 ->
                       (match c0 with
-                       | CLoop (_, _, _) -> None
+                       | CLoop (_, _, _, _) -> None
                        | CIf join ->
                          let exit = Z.add pc1 off in
                          if (&&)
